@@ -189,6 +189,10 @@ def parse(text, label, ordered_labels=None):
                     groups.append((fm.lower(), ['box_' + x for x in boxes]))
             if ok and groups:
                 done(('sumstmt', groups), m, b)
+                cm = re.match(rf'^\s*Enter the smaller of that total or (?P<f>Form 1040)(?: or 1040-SR)?, line (?P<l>{LAB})\.', rest or '')
+                if cm:
+                    expr = ('capf', expr, find_form(cm.group('f')), cm.group('l'))
+                    rest = rest[cm.end():]
     if expr is None:
         # template wording of Form 8959 / Form 1040 line 1a
         m = re.match(r'^(?:Total amount|[A-Z][A-Za-z ]+?) from Form(?:\(s\))? (?P<f>W-2), box (?P<n>\d+)\b(?P<tail>[^.]*\.)(?P<more> If you have more than one Form W-2, enter the total of the amounts from box (?P<n2>\d+)\.)?', b)
@@ -299,7 +303,7 @@ def evaluate(expr, get, tax=None, status=None):
         return None if tax is None else tax(get(expr[1]))
     if k == 'divstatus':
         return None if status not in expr[2] else get(expr[1]) / expr[2][status]
-    if k in ('addf', 'sumstmt'):
+    if k in ('addf', 'sumstmt', 'capf'):
         return None            # operands live on another form / on the payer statements: resolved by the caller (end-to-end only)
     if k == 'floor0':
         r = evaluate(expr[1], get)
